@@ -194,6 +194,10 @@ def make (c):
         spec ['partial'] = dict (tag = int (rng.choice (alltags)), skip = str (rng.choice (['first', 'last'])), z = [float (10 ** rng.uniform (0, 2)), float (rng.uniform (-50, 50))])
     spec ['style'] = style
     spec ['attach_shuffle'] = int (rng.integers (0, 1000))
+    rd = np.random.default_rng ([c ['seed'], 151, c ['i']])
+    u  = rd.random ()
+    if u < 0.1:
+        spec ['defaults'] = str (rd.choice (['nosrc', 'volt', 'nogeo']))
     return gen.clean (spec)
 # end def make
 
@@ -207,6 +211,33 @@ def argv_of (spec):
         perm = rng.permutation (len (vals))
         for i, j in zip (idx, perm):
             a [i + 1] = vals [j]
+    dflt = spec.get ('defaults')
+    if dflt:
+        # the program's own defaults: no --excitation-pulse (pulse 5, with or without a voltage of its own),
+        # no geometry option at all (the built-in ten-segment wire)
+        out, i, nv = [], 0, 0
+        while i < len (a):
+            x = a [i]
+            nm, has = (x.split ('=') [0], '=' in x)
+            if nm == '--excitation-pulse':
+                i += 1 if has else 2
+                continue
+            if nm == '--excitation-voltage':
+                nv += 1
+                if nv > 1 or dflt == 'nosrc':
+                    i += 1 if has else 2
+                    continue
+            if dflt == 'nogeo' and nm in ('-w', '-a', '--helix', '--taper-wire', '--geo-rotate', '--geo-translate', '--geo-scale', '--attach-load',
+                                          '--skin-effect-conductivity', '--skin-effect-resistivity', '--insulation-load', '-l', '--load', '--rlc-load', '--trap-load', '--medium', '--boundary', '--radial-count', '--radial-radius',
+                                          '--laplace-load-a', '--laplace-load-b'):
+                i += 1 if has else 2
+                continue
+            out.append (x)
+            if not has and i + 1 < len (a) and nm not in ('-T',):
+                out.append (a [i + 1])
+                i += 1
+            i += 1
+        a = out
     return a
 # end def argv_of
 
